@@ -3,6 +3,7 @@
 package main
 
 import (
+	"crypto/sha256"
 	"crypto/tls"
 	"crypto/x509"
 	"fmt"
@@ -12,6 +13,7 @@ import (
 	"os"
 	"path/filepath"
 	"strings"
+	"sync/atomic"
 
 	"verif/harness/lab/gen"
 	"verif/harness/lab/l2"
@@ -58,7 +60,7 @@ func canLoad(c config, srv string) bool {
 
 func main() {
 	run := report.New("C10", "exploration")
-	run.Rule("configs = CDP set{http, https-untrusted, ldap, ldap+http, unparsable URL, refused+http, http shared by two certificates} x fetch mode x signature mode{verify,none} x backend x strict; histories over {server:=down|garbage|bad signature|good, handshake, refresh, restart} starting with a server state: all of length <=3 (quick) / <=4 (thorough) plus seeded longer ones, sampled for the two slow sets; reference model tracks whether a CRL for the set can be in force; oracle: strict => a handshake is accepted only if the model allows 'in force' at that instant; lenient => an unlisted certificate is never denied; non-trivial = history with >=1 handshake whose verdict the model constrains (strict: accepted-and-allowed or denied-while-not-in-force; lenient: any); distinct = config + history")
+	run.Rule("configs = CDP set{http, https-untrusted, ldap, ldap+http, unparsable URL, refused+http, http shared by two certificates} x fetch mode x signature mode{verify,none} x backend x strict; histories over {server:=down|garbage|bad signature|good, handshake, refresh, restart} (+ for http/disk/strict five histories with a one-shot store-swap fault: the staged database vanishes before it is moved into place) starting with a server state: all of length <=3 (quick) / <=4 (thorough) plus seeded longer ones, sampled for the two slow sets; reference model tracks whether a CRL for the set can be in force; oracle: strict => a handshake is accepted only if the model allows 'in force' at that instant; lenient => an unlisted certificate is never denied; non-trivial = history with >=1 handshake whose verdict the model constrains (strict: accepted-and-allowed or denied-while-not-in-force; lenient: any); distinct = config + history")
 	run.Assume("'down' = HTTP 500 (no loader retries); refused / TLS-untrusted locations are sampled because each attempt costs 2 s of loader retries", "background mode: a verdict racing with the triggered load may be either; the model allows both")
 	scratch, _ := report.Scratch("C10")
 	sut.QuietStderr(filepath.Join(scratch, "stderr.log"))
@@ -80,6 +82,9 @@ func main() {
 		run.Set("configs", len(cfgs))
 		if run.Counter("strict_accepted_after_load") < 20 {
 			run.Inconclusive("too few histories in which a strict handshake was accepted after a load")
+		}
+		if run.Counter("swap_faults_fired") < 12 {
+			run.Inconclusive("the injected store-swap fault fired too rarely")
 		}
 		run.Finish(300)
 		return
@@ -157,12 +162,26 @@ func main() {
 				}
 			}
 		}
+		if c.Set == "http" && c.Backend == "disk" && c.Strict {
+			// a first load (or refresh) whose store swap fails after download, parse and signature check
+			todo = append(todo, swapFaultHistories...)
+		}
 		for _, h := range todo {
 			hn++
 			runHistory(run, w, c, h, scratch, hn, goodCRL, badSig, tlsSrv.URL, refused)
 		}
 	}
 	run.FinishShard()
+}
+
+// "swapfault" arms a one-shot fault: the staged database vanishes just before it is moved into
+// place, so the next store swap fails (and is rolled back) after ~5 s of rename retries.
+var swapFaultHistories = [][]string{
+	{"srv:good", "swapfault", "handshake", "srv:down", "handshake", "srv:good", "handshake"},
+	{"srv:garbage", "handshake", "srv:good", "swapfault", "handshake", "srv:garbage", "handshake", "srv:good", "handshake"},
+	{"srv:good", "swapfault", "refresh", "handshake", "srv:down", "handshake", "restart", "handshake"},
+	{"srv:good", "swapfault", "handshake", "srv:down", "refresh", "handshake", "srv:good", "refresh", "handshake"},
+	{"srv:good", "handshake", "swapfault", "refresh", "srv:down", "handshake", "restart", "handshake"},
 }
 
 func runHistory(run *report.Run, w *world.World, c config, h []string, scratch string, hn int, goodCRL, badSig []byte, tlsURL, refused string) {
@@ -206,20 +225,45 @@ func runHistory(run *report.Run, w *world.World, c config, h []string, scratch s
 	defer chk.Stop()
 	m := model{srv: "down"}
 	setSrv("down")
+	var armed atomic.Bool
+	var fired atomic.Int64
+	if c.Backend == "disk" {
+		sum := sha256.Sum256([]byte(url))
+		id := fmt.Sprintf("%x", sum[:])
+		l2.SetExtraHook(func(name string) {
+			if name == "leveldb.update.new_closed" && armed.CompareAndSwap(true, false) {
+				des, _ := os.ReadDir(wd)
+				for _, de := range des {
+					if de.IsDir() && de.Name() != id {
+						_ = os.RemoveAll(filepath.Join(wd, de.Name()))
+					}
+				}
+				fired.Add(1)
+			}
+		})
+		defer l2.SetExtraHook(nil)
+	}
 	desc := c.String() + " history=" + strings.Join(h, ",")
 	var trace []string
 	constrained := 0
 	certN := 0
 	run.Eval(1)
 	for step, ev := range h {
+		firedBefore := fired.Load()
 		switch {
+		case ev == "swapfault":
+			armed.Store(true)
+			trace = append(trace, ev)
 		case strings.HasPrefix(ev, "srv:"):
 			m.srv = strings.TrimPrefix(ev, "srv:")
 			setSrv(m.srv)
 			trace = append(trace, ev)
 		case ev == "refresh":
 			chk.Refresh()
-			if m.known && !m.inForce && canLoad(c, m.srv) {
+			if fired.Load() != firedBefore {
+				run.Count("swap_faults_fired", 1)
+				trace = append(trace, "(swap failed)")
+			} else if m.known && !m.inForce && canLoad(c, m.srv) {
 				m.inForce = true
 			}
 			trace = append(trace, ev)
@@ -237,21 +281,26 @@ func runHistory(run *report.Run, w *world.World, c config, h []string, scratch s
 			certN++
 			chain := w.Leaf(gen.SerialOfWidth(rand.New(rand.NewSource(int64(hn*100+certN))), 11, false), cdp, nil)
 			before := m.inForce
+			_, err := chk.Ask(chain)
+			swapFailed := fired.Load() != firedBefore
+			if swapFailed {
+				run.Count("swap_faults_fired", 1)
+				trace = append(trace, "(swap failed)")
+			}
 			// what the model allows for this verdict
 			allowed := before
 			if c.Fetch == "actively" {
-				if !m.inForce && canLoad(c, m.srv) {
+				if !m.inForce && canLoad(c, m.srv) && !swapFailed {
 					m.inForce = true
 				}
 				allowed = m.inForce
 			} else {
 				if !m.known && canLoad(c, m.srv) {
 					allowed = true // races with the triggered background load
+					if !swapFailed {
+						m.inForce = true // Ask waited for the triggered pass
+					}
 				}
-			}
-			_, err := chk.Ask(chain)
-			if c.Fetch == "background" && !m.known && canLoad(c, m.srv) {
-				m.inForce = true // Ask waited for the triggered pass
 			}
 			m.known = true
 			verdict := "accepted"
